@@ -53,7 +53,12 @@ def run_shard_inprocess(pid: str, spec: dict) -> Acc:
     acc = Acc()
     hub.reset(acc)
     mod = prop_module(pid)
-    mod.run_shard(spec, acc)
+    if spec.get("kind") == "e2e":
+        from . import e2e
+
+        e2e.run_shard(spec, acc)
+    else:
+        mod.run_shard(spec, acc)
     acc.flags["contracts_backend"] = getattr(hub, "contracts_backend", "n/a")
     return acc
 
@@ -137,6 +142,10 @@ def main(argv=None) -> int:
 
     tree_file = boot.assert_tree()
     specs = mod.plan(args.tier, seed)
+    from . import e2e
+
+    if pid in e2e.WEIGHTS:
+        specs = specs + e2e.plan_shards(pid, args.tier)  # end-to-end soak on scanned architectures, all monitors armed
     for i, s in enumerate(specs):
         s.setdefault("seed", seed * 1000003 + i)
         s["tier"] = args.tier
@@ -174,7 +183,7 @@ def main(argv=None) -> int:
     finally:
         shutil.rmtree(workdir, ignore_errors=True)
 
-    for why in mod.floors(acc, args.tier) or []:
+    for why in (mod.floors(acc, args.tier) or []) + (e2e.floor(acc, args.tier) if pid in e2e.WEIGHTS else []):
         acc.mark_inconclusive(why)
 
     known = load_known()
@@ -277,7 +286,12 @@ def replay(pid, mod, path) -> int:
         for inst in instances:
             acc = Acc()
             hub.reset(acc)
-            mod.replay(inst["case"], acc)
+            if isinstance(inst.get("case"), dict) and inst["case"].get("kind") == "e2e":
+                from . import e2e
+
+                e2e.replay(inst["case"], acc)
+            else:
+                mod.replay(inst["case"], acc)
             keys = [k for k in acc.violations if k.startswith(pid + ":")]
             if not keys:
                 print(f"replay: no violation reproduced for {inst.get('key')}")
